@@ -89,7 +89,12 @@ Definition collect (spans : list span) (nt : N) (maxw : Z) : list span :=
                else coll) spans [].
 
 (* ---- the position loop: while term != 0 ---- *)
-Definition pmask (p : Z) : N := N.shiftl 1 (Z.to_N (p mod 64)).
+(* _posn_mask:  return 1 << (curr_posn % 64)  — the generated C shifts the INT literal 1, which is undefined for
+   counts >= 32; as compiled by gcc on x86-64 it is a 32-bit shift (count mod 32) whose result is sign-extended
+   to 64 bits.  The model mirrors the compiled behaviour (validated by the correspondence check). *)
+Definition pmask (p : Z) : N :=
+  let k := Z.to_N (p mod 32) in
+  if k =? 31 then 18446744071562067968 else N.shiftl 1 k.
 
 (* update the spans that existed before this position was added (indices < end); appended copies go to [app] *)
 Fixpoint update_spans (old : list span) (room : N) (tmask pm : N) (cp : Z) (nt : N) (maxw : Z) (full : bool)
@@ -188,22 +193,38 @@ Fixpoint words_loop (P : mem) (fuel : nat) (hi : N) (tord : N) (nt : N) (maxw : 
       else Done st
   end.
 
-(* ---- one outer iteration: every term up to its next document ---- *)
-Fixpoint terms_loop (P : mem) (lens : list N) (tord : N) (idxs : list N) (nt : N) (maxw : Z)
-  (spans : list span) (full : bool) (last_key : N) (sums : list N) : result (list N * list span * bool * N * list N) :=
+(* ---- one outer iteration: every term at the document the first term is at ---- *)
+(* while curr_idx[t] < hi and key(posns[curr_idx[t]]) < doc_key: curr_idx[t] += 1 *)
+Fixpoint skip_earlier (P : mem) (fuel : nat) (i hi doc_key : N) : result N :=
+  match fuel with
+  | O => OutOfFuel
+  | S f =>
+      if i <? hi then do w <- rd 0 P i; if dkey w <? doc_key then skip_earlier P f (i + 1) hi doc_key else Done i
+      else Done i
+  end.
+
+Fixpoint terms_loop (P : mem) (lens : list N) (tord : N) (idxs : list N) (nt : N) (maxw : Z) (doc_key : N)
+  (spans : list span) (full : bool) (last_key : N) (sums : list N) (all_present : bool)
+  : result (list N * list span * bool * N * list N * bool) :=
   match idxs, lens with
-  | i :: irest, hi :: lrest =>
-      (* if curr_idx[t] >= lengths[t+1]: continue   (repair of D21: an exhausted term is not read) *)
-      do st <- (if hi <=? i then
-                  Done {| ts_spans := spans; ts_full := full; ts_last_key := last_key; ts_curr_key := 0; ts_idx := i; ts_sum := 0 |}
+  | i0 :: irest, hi :: lrest =>
+      do i <- skip_earlier P (S (N.to_nat (hi - i0))) i0 hi doc_key;
+      do st <- (if hi <=? i then      (* exhausted: not read (repair of D21); the term is absent *)
+                  Done ({| ts_spans := spans; ts_full := full; ts_last_key := last_key; ts_curr_key := 0; ts_idx := i; ts_sum := 0 |}, false)
                 else
-                  do w0 <- rd 0 P i;                       (* curr_key = key(posns[curr_idx[term_ord]]) *)
-                  words_loop P (S (N.to_nat (hi - i))) hi tord nt maxw
-                    {| ts_spans := spans; ts_full := full; ts_last_key := last_key; ts_curr_key := dkey w0; ts_idx := i; ts_sum := 0 |});
-      do r <- terms_loop P lrest (tord + 1) irest nt maxw (ts_spans st) (ts_full st) (ts_last_key st) (sums ++ [ts_sum st]);
-      let '(idxs', sp', f', lk', sums') := r in
-      Done (ts_idx st :: idxs', sp', f', lk', sums')
-  | _, _ => Done ([], spans, full, last_key, sums)
+                  do w0 <- rd 0 P i;
+                  if negb (dkey w0 =? doc_key) then   (* the term does not occur in this document *)
+                    Done ({| ts_spans := spans; ts_full := full; ts_last_key := last_key; ts_curr_key := dkey w0; ts_idx := i; ts_sum := 0 |}, false)
+                  else
+                    do s <- words_loop P (S (N.to_nat (hi - i))) hi tord nt maxw
+                              {| ts_spans := spans; ts_full := full; ts_last_key := last_key; ts_curr_key := dkey w0; ts_idx := i; ts_sum := 0 |};
+                    Done (s, true));
+      let '(stt, present) := st in
+      do r <- terms_loop P lrest (tord + 1) irest nt maxw doc_key (ts_spans stt) (ts_full stt) (ts_last_key stt)
+                (sums ++ [ts_sum stt]) (andb all_present present);
+      let '(idxs', sp', f', lk', sums', ap') := r in
+      Done (ts_idx stt :: idxs', sp', f', lk', sums', ap')
+  | _, _ => Done ([], spans, full, last_key, sums, all_present)
   end.
 
 Definition min_popcount (sums : list N) : N :=
@@ -223,10 +244,14 @@ Fixpoint docs_loop (P : mem) (fuel : nat) (his : list N) (hi0 : N) (idxs : list 
       match idxs with
       | i0 :: _ =>
           if i0 <? hi0 then
-            do r <- terms_loop P his 0 idxs nt maxw [] false 0 [];
-            let '(idxs', spans, full, last_key, sums) := r in
-            let c := if full then min_popcount sums else N.of_nat (length (collect spans nt maxw)) in
-            docs_loop P f his hi0 idxs' nt maxw (add_count last_key c acc)
+            do w <- rd 0 P i0;
+            let doc_key := dkey w in
+            do r <- terms_loop P his 0 idxs nt maxw doc_key [] false 0 [] true;
+            let '(idxs', spans, full, _, sums, all_present) := r in
+            let acc' := if negb all_present then acc            (* a document lacking one of the terms cannot match *)
+                        else if full then add_count doc_key (min_popcount sums) acc
+                        else add_count doc_key (N.of_nat (length (collect spans nt maxw))) acc in
+            docs_loop P f his hi0 idxs' nt maxw acc'
           else Done acc
       | [] => Done acc
       end
